@@ -294,6 +294,20 @@ def check_chain(text, parse):
             fails.append(("chain:order", {"text": text, "kind": kind}, "%s order %r, expected %r" % (kind, tags, want)))
             break
         i += 3
+    # the members of a chain are its `visitors` attribute AT THE TIME OF THE VISIT (it is public and documented): a chain that is re-used after the attribute was
+    # reassigned enters its current members in order and leaves them in reverse
+    log_r = []
+    chain = ChainedVisitor(Recorder("a", log_r), Recorder("b", log_r))
+    chain.visit(parse(text))
+    del log_r[:]
+    chain.visitors = tuple(chain.visitors) + (Recorder("c", log_r),)
+    chain.visit(parse(text))
+    by_tag = {t: [(k, type(nd).__name__) for k, tg, nd in log_r if tg == t] for t in "abc"}
+    if not (by_tag["a"] == by_tag["b"] == by_tag["c"]) or [(k, t) for k, t, _n in log_r[:3]] != [("enter", "a"), ("enter", "b"), ("enter", "c")] or \
+            [(k, t) for k, t, _n in log_r[-3:]] != [("leave", "c"), ("leave", "b"), ("leave", "a")]:
+        fails.append(("chain:order", {"text": text, "history": "visitors reassigned between two visits"},
+                      "after `chain.visitors` was extended by a third member the members saw %s events; first / last three events: %r / %r" % (
+                          {t: len(v) for t, v in by_tag.items()}, [(k, t) for k, t, _n in log_r[:3]], [(k, t) for k, t, _n in log_r[-3:]])))
     # a member raising the skip signal at a node: members before it have entered that node, nobody enters its children or leaves it - and every
     # OTHER node is still entered by all members in order and left by all in reverse (the skip is local to that node)
     base = [(kind, tag, id(node)) for kind, tag, node in log]
